@@ -406,6 +406,7 @@ func famAuthority(g *sgen, i int) J {
 	hosts := []string{"b.example", "b.example", "b.example:8443", "B.EXAMPLE", "sub.b.example", "c.example"}
 	at := func(h, p string) string { return "https://" + h + p }
 	var a J
+	var actorPool []string
 	switch i % 4 {
 	case 0: // Update / Delete across hosts
 		ty := g.r.pick([]string{"Update", "Delete"})
@@ -418,6 +419,12 @@ func famAuthority(g *sgen, i int) J {
 				oh = g.r.pick(hosts)
 			}
 			oid := at(oh, fmt.Sprintf("/notes/u%d", k))
+			if g.r.chance(20) {
+				// a Link or Mention with an id of its own and an href elsewhere: it is identified by the id
+				hh := g.r.pick(hosts)
+				objs = append(objs, J{"type": g.r.pick([]string{"Link", "Mention"}), "id": oid, "href": at(hh, "/linked"), "name": "upd"})
+				continue
+			}
 			if ty == "Update" || g.r.bool() {
 				objs = append(objs, J{"type": "Note", "id": oid, "content": "upd"})
 			} else {
@@ -483,6 +490,11 @@ func famAuthority(g *sgen, i int) J {
 		a = J{"type": "Undo", "id": remote(fmt.Sprintf("/activities/%d", g.r.intn(100)))}
 		rem := jmap(w["remote"])
 		pool := []string{bob, remote("/users/bea"), carol}
+		if g.r.chance(25) {
+			// distinct actors whose ids differ only in letter case
+			pool = []string{remote("/users/Bob"), remote("/users/bob"), remote("/users/BOB")}
+			actorPool = pool
+		}
 		var undone []interface{}
 		for k, n := 0, 1+g.r.intn(2); k < n; k++ {
 			var as []interface{}
@@ -517,11 +529,19 @@ func famAuthority(g *sgen, i int) J {
 				{remote("/users/bob?v=1"), remote("/users/bob"), remote("/users/bob#main")},
 			}[g.r.intn(3)]
 		}
+		if actorPool != nil {
+			pool = actorPool
+		}
 		na := 1 + g.r.intn(3)
 		if g.r.bool() {
 			na = 1
 		}
 		for k := 0; k < na; k++ {
+			if g.r.chance(12) {
+				// an actor given as a Mention with an id of its own and an href to somebody else
+				actors = append(actors, J{"type": "Mention", "id": pool[k], "href": pool[(k+1)%len(pool)]})
+				continue
+			}
 			actors = append(actors, g.ref(pool[k], "Person", g.r.chance(40)))
 		}
 		a["actor"] = asList(actors)
